@@ -92,6 +92,10 @@ def _ghost_wire_at_send_batch(text):
 
 def build():
     u = world.build('route', active=['route'])
+    # the stub of select_pre_registration_connection assumes an in-range result from an immutable slice: audited
+    u.audit(PH, 'select_pre_registration_connection', sig=['connections: &[SrtlaConnection]', '-> Option<usize>'],
+            require=[r'let Some\(conn\) = connections \.get\(idx\)|let Some\(conn\) = connections\.get\(idx\)', r'\.enumerate\(\) \.find\(|\.enumerate\(\)\.find\('],
+            forbid=[r'Some\(\s*\w+\s*[-+*]'])
     u.use('use std::net::SocketAddr;')
     u.add(u.item('crates/srtla-core/src/connection/incoming.rs', 'struct', 'SrtlaIncoming'))
     u.add(shell.STUBS)
